@@ -1,3 +1,4 @@
+import Proofs.Join15
 import Proofs.ConfModel
 import Proofs.Classify
 import Proofs.Fund
@@ -105,5 +106,26 @@ theorem dualflat_is_orthogonal_to_einf {n : Nat} {sig : Nat → R} (half : R) (h
   lc_dual_of_wedge_zero half hhalf x I Iinv F hx hI h1 h2 hF
 theorem dualflat_undual {n : Nat} {sig : Nat → R} (I Iinv F : Cl n sig) (h2 : Iinv * I = 1) : (F * Iinv) * I = F := by
   rw [mul_assoc, h2, mul_one]
+
+
+/-! ### the join, in Lean: the half-sum forms ARE the coded `|` and `^`
+
+`Classify.vdot / dotv / vwedge / wedgev` (the forms in which every classification identity above is stated) equal the coded inner / outer
+products of a vector with a homogeneous element of grade `g` (σ = (−1)^g), in the model `Cl N sig` over ℚ, for every `N` and signature.
+With these four equalities each identity above is a statement about `Layout.imt_func` / `omt_func` as soon as its operands are
+homogeneous — which is `classify`'s own precondition. -/
+section Join
+variable {N : Nat} {sig : Nat → ℚ}
+
+theorem coded_inner_is_vdot (g : Nat) (hg : 1 ≤ g) (v X : Cl N sig) (hv : IsHom N 1 v) (hX : IsHom N g X) :
+    (asCl (mmul N sig Model.imtCheck v X) : Cl N sig) = Classify.vdot v X (sgn g : ℚ) := Cl.coded_vdot g hg v X hv hX
+theorem coded_inner_is_dotv (g : Nat) (hg : 1 ≤ g) (v X : Cl N sig) (hv : IsHom N 1 v) (hX : IsHom N g X) :
+    (asCl (mmul N sig Model.imtCheck X v) : Cl N sig) = Classify.dotv X v (sgn g : ℚ) := Cl.coded_dotv g hg v X hv hX
+theorem coded_outer_is_vwedge (g : Nat) (v X : Cl N sig) (hv : IsHom N 1 v) (hX : IsHom N g X) :
+    (asCl (wedge N v X) : Cl N sig) = Classify.vwedge v X (sgn g : ℚ) := Cl.coded_vwedge g v X hv hX
+theorem coded_outer_is_wedgev (g : Nat) (v X : Cl N sig) (hv : IsHom N 1 v) (hX : IsHom N g X) :
+    (asCl (wedge N X v) : Cl N sig) = Classify.wedgev X v (sgn g : ℚ) := Cl.coded_wedgev g v X hv hX
+
+end Join
 
 end C15
